@@ -406,10 +406,23 @@ async fn check_round(r: &mut Runner, base_v: u64, outcomes: &[PartyOutcome], fau
                 let kind_s = claimed.get(&v).map(|o| crate::e1::op_sig_kind(&o.op, &tag_state(r, o, outcomes, &cur))).unwrap_or_else(|| {
                     // unclaimed version: attribute to the failed party whose operation fits the transaction
                     let cands: Vec<&PartyOutcome> = outcomes.iter().filter(|o| o.result.is_err() && txn_op_matches(&txn_op, &o.op)).collect();
-                    if faults_on && cands.len() == 1 {
-                        format!("{}:unclaimed", crate::e1::op_sig_kind(&cands[0].op, &tag_state(r, cands[0], outcomes, &cur)))
-                    } else {
-                        "unclaimed".to_string()
+                    // several fit: take the one whose expected effect is closest to what the version shows
+                    let mut best: Option<(usize, &PartyOutcome)> = None;
+                    for c in cands.iter() {
+                        for rv in c.read_version..v {
+                            if let Ok(next) = apply_effect(r, &cur, c, rv) {
+                                let exp: BTreeSet<Row> = next.rows.iter().cloned().collect();
+                                let act: BTreeSet<Row> = got.iter().cloned().collect();
+                                let d = exp.symmetric_difference(&act).count();
+                                if best.map(|(bd, _)| d < bd).unwrap_or(true) {
+                                    best = Some((d, c));
+                                }
+                            }
+                        }
+                    }
+                    match best {
+                        Some((_, c)) if faults_on => format!("{}:unclaimed{}", crate::e1::op_sig_kind(&c.op, &tag_state(r, c, outcomes, &cur)), r.history_tags(&c.op, &[])),
+                        _ => "unclaimed".to_string(),
                     }
                 });
                 let extra: Vec<String> = outcomes.iter().filter_map(|p| if let Op::CreateIndex { col, .. } = &p.op { Some(col.clone()) } else { None }).collect();
